@@ -181,6 +181,14 @@ def execute(sc):
         V.add('C13/display', 'exception', (ra.traceback or rb.traceback)[-1200:])
     elif da != db:
         V.add('C13/display', 'file-vs-pipe', 'file and pipe mode differ: %r' % (first_diff(da, db),))
+    elif not cfg.get('byte_faults') and cfg.get('filter') is None:
+        # "all of its output is processed": the display must account for every line of the stream (a loss that is the
+        # same in all three modes would escape the comparison between modes)
+        from . import c08
+        exp = [e for e in c08.expected_items(st, cfg['suppress']) if e is not None]
+        body = [o for o in (L.classify(0, p) for k, p in da if k == 'out') if o.kind in ('msg', 'pass', 'other') and not o.text.startswith(L.STOPPED_PREFIX)]
+        if len(body) != len(exp) or any(not c08.item_matches(o, e, st) for o, e in zip(body, exp)):
+            V.add('C13/unprocessed-output', 'conservation', '%d lines of program output should give %d items, the display has %d' % (len(st.lines), len(exp), len(body)))
     trace = ''
     if deadlock is not None:
         V.add('C13/deadlock', 'run', 'run mode dead-locked (not all output processed): ' + deadlock)
